@@ -35,7 +35,7 @@ RULE = (
     "of the clean output, and a clean call on the same closure follows. (3) Schedules: 2-3 threads with drawn "
     "create/use programs start from cold caches under a deterministic line-granularity scheduler (sys.settrace in "
     "src/kio, token passing); the interleaving is a drawn list of <=3 preemptions (global step, target thread); "
-    "additionally ONE preemption is swept over EVERY step of fixed two/three-thread programs (warm and cold caches, two different values of one class) exhaustively. Non-trivial = history with a failed call "
+    "additionally ONE preemption is swept over EVERY step of fixed two/three-thread programs (warm and cold caches, two different values of one class) exhaustively, and EVERY PAIR of preemptions (park thread 0 at k1, park thread 1 at k2, resume 0, then 1) is swept over a warm two-thread program whose values hold multi-item arrays. Non-trivial = history with a failed call "
     "followed by a successful call on the same closure / fault k strictly inside the call / schedule with >=1 "
     "preemption landing inside entity_reader/entity_writer construction or read_entity/write_entity; distinct by hash."
 )
@@ -710,6 +710,81 @@ SWEEPS_THOROUGH = SWEEPS_QUICK + [
 ]
 
 
+def populated_tree(cd: D.ClassDesc, n: int, variant: int) -> dict:
+    """Deterministic tree with n-item arrays at every level and values that differ by `variant`."""
+    from ..refcodec import Present
+
+    t = {}
+    for f in cd.fields:
+        if f.kind == "struct":
+            make = lambda f=f: populated_tree(f.struct, n, variant)  # noqa: E731
+        elif f.kind == "float64":
+            make = lambda: bytes.fromhex("3ff8000000000000")  # noqa: E731
+        elif f.kind == "uuid":
+            make = lambda: bytes([variant + 1]) * 16  # noqa: E731
+        elif f.kind in ("string", "bytes", "records"):
+            make = lambda: b"v%d" % variant  # noqa: E731
+        elif f.kind == "bool":
+            make = lambda: 1  # noqa: E731
+        elif f.kind == "error_code":
+            make = lambda: 3  # noqa: E731
+        else:
+            make = lambda: 5 + variant  # noqa: E731
+        v = [make() for _ in range(n)] if f.array else make()
+        t[f.name] = Present(v) if f.tag is not None else v
+    return t
+
+
+# two-preemption sweeps: thread 0 is parked at step k1, thread 1 runs until step k2 and is parked as well, thread 0
+# resumes and finishes, then thread 1 finishes -- for EVERY pair (k1, k2) (stride > 1 only in the large program)
+PAIR_SWEEPS_QUICK = [("warm-decode-arrays-pair", "kio.schema.metadata.v12.request:MetadataRequest", 2, 1)]
+PAIR_SWEEPS_THOROUGH = PAIR_SWEEPS_QUICK + [
+    ("warm-encode-arrays-pair", "kio.schema.metadata.v12.request:MetadataRequest", 2, 1),
+    ("warm-decode-nested-arrays-pair", "kio.schema.metadata.v12.response:MetadataResponse", 2, 3),
+]
+
+
+def _pair_items(path: str, n: int):
+    cd = D.describe(D.resolve(path))
+    return [(path, tree_to_json(populated_tree(cd, n, v))) for v in (0, 1)]
+
+
+def _pair_sweep_worker(task):
+    name, path, n, stride, op, k1_lo, k1_hi, per_thread = task
+    rep = Report(prop=ID, level="exploration", rule=RULE)
+    trees_json = _pair_items(path, n)
+    items = _schedule_items(trees_json)
+    programs = [[(op, 0)], [(op, 1)]]
+    c = {"pair_sweep_schedules": 0}
+    for k1 in range(k1_lo, k1_hi, stride):
+        for k2 in range(k1 + 1, k1 + per_thread + 2, stride):
+            fails, r = run_schedule(items, programs, [(k1, 1), (k2, 0)], cold=False)
+            c["pair_sweep_schedules"] += 1
+            rep.evaluations += 1
+            if len(r.preempted_at) == 2:
+                rep.nontrivial.add(case_hash(("pair", name, k1, k2)))
+            for sig, msg in fails:
+                rep.add_failure(Failure(sig, f"[pair sweep {name}] " + msg, {"kind": "schedule-abs", "items": trees_json, "programs": programs,
+                                                                            "preemptions": [[k1, 1], [k2, 0]], "cold": False}, len(msg)))
+    clear_caches()
+    rep.extra["counters"] = c
+    return rep
+
+
+def pair_sweep_tasks(ctx: Ctx, shards: int) -> list:
+    tasks = []
+    for name, path, n, stride in (PAIR_SWEEPS_QUICK if ctx.quick else PAIR_SWEEPS_THOROUGH):
+        op = "enc" if "encode" in name else "dec"
+        items = _schedule_items(_pair_items(path, n))
+        _f, dry = run_schedule(items, [[(op, 0)], [(op, 1)]], [], cold=False)
+        per_thread = dry.steps // 2 + 1
+        step = max(1, -(-per_thread // (shards * 2)))
+        for lo in range(0, per_thread, step):
+            tasks.append((name, path, n, stride, op, lo, min(per_thread, lo + step), per_thread))
+    clear_caches()
+    return tasks
+
+
 def _sweep_worker(task):
     name, cold, programs, trees_json, lo, hi = task
     rep = Report(prop=ID, level="exploration", rule=RULE)
@@ -771,6 +846,8 @@ def run(ctx: Ctx) -> Report:
     for rep in pool_map(_schedule_worker, tasks):
         total.merge(rep)
     for rep in pool_map(_sweep_worker, sweep_tasks(ctx, items, shards)):
+        total.merge(rep)
+    for rep in pool_map(_pair_sweep_worker, pair_sweep_tasks(ctx, shards)):
         total.merge(rep)
     c = total.extra.get("counters", {})
     if c.get("preemptions_landed", 0) < c.get("schedules", 0) // 2:
